@@ -105,6 +105,11 @@ func genC17(t *rapid.T) *c17Case {
 		}
 	default:
 		p := gen.DrawVP8(t, 24)
+		if p.W > 48 || p.H > 48 {
+			// every prefix of the file is decoded: the generator's rare very wide/tall frames (hundreds of
+			// kilobytes) stay out of this check
+			p.W, p.H = minInt(p.W, 48), minInt(p.H, 48)
+		}
 		c.File = xref.Simple("VP8 ", p.Build())
 		c.Desc = map[string]any{"prog": p.Summary()}
 	}
